@@ -87,6 +87,8 @@ theorem inv_setValue (r : Rng α) (row col : Nat) (v : α) (hi : Inv r) (r2 : Rn
     exact inv_set _ _ _ (inv_grow r row col hi hne hpre').1
   · cases h
 
+/-! ## `range` -/
+
 /-- `range(s, e)` yields a consistent rectangle whose bounds are exactly `(s, e)` (and is never empty) -/
 theorem inv_range (r : Rng α) (hi : Inv r) (sr sc er ec : Nat) (r' : Rng α)
     (h : range r sr sc er ec = .ok r') :
@@ -564,6 +566,31 @@ theorem usedCells_spec [DecidableEq α] (r : Rng α) :
   refine ⟨rfl, List.filter_sublist, fun c => ?_⟩
   unfold usedCells
   rw [List.mem_filter]; simp
+
+/-! ## the property as stated: every history -/
+
+/-- the headline: after **any** history that returns, the range is a full rectangle — `height × width` cells,
+    `rows()` yields `height` rows of `width` cells, `cells()` has `height × width` entries, entry `i·width + j`
+    of `cells()` and cell `j` of row `i` are both the cell `get((i, j))` = `get_value((start.0 + i, start.1 + j))`,
+    and outside the rectangle `get`/`get_value` return `None` -/
+theorem history_consistent (ops : List (Op α)) (r : Rng α) (h : run ops = .ok r) :
+    r.inner.length = r.height * r.width ∧ (rows r).length = r.height ∧
+    (∀ row ∈ rows r, row.length = r.width) ∧ (cells r).length = r.height * r.width ∧
+    (∀ i j, i < r.height → j < r.width →
+      get r i j = some (r.valAt (r.sr + i) (r.sc + j)) ∧
+      getValue r (r.sr + i) (r.sc + j) = get r i j ∧
+      (rows r)[i]?.bind (·[j]?) = get r i j ∧
+      (cells r)[i * r.width + j]? = (get r i j).map (fun v => (i, j, v))) ∧
+    (∀ i j, ¬ (i < r.height ∧ j < r.width) → get r i j = none ∧ getValue r (r.sr + i) (r.sc + j) = none) := by
+  have hi := inv_reachable ops r h
+  obtain ⟨r1, r2, _, r4⟩ := rows_spec r hi
+  obtain ⟨c1, _, c3⟩ := cells_spec r hi
+  refine ⟨hi.len, r1, r2, c1, fun i j h1 h2 => ?_, fun i j hn => ?_⟩
+  · have hg : get r i j = some (r.valAt (r.sr + i) (r.sc + j)) := by
+      rw [get_spec r hi, if_pos ⟨h1, h2⟩]
+    exact ⟨hg, (accessors_agree r hi i j).1, r4 i j, by rw [c3 i j h1 h2, hg]; rfl⟩
+  · have hg : get r i j = none := by rw [get_spec r hi, if_neg hn]
+    exact ⟨hg, by rw [(accessors_agree r hi i j).1, hg]⟩
 
 /-! ## non-vacuity: concrete instances (values are `Nat`, default `0`) -/
 
